@@ -1250,6 +1250,8 @@ fn process_alternatives<'data, P: Platform>(
                 }
             }
             Err(err) => {
+                #[cfg(feature = "verif")]
+                crate::verif_api::errlog::arrive("dup", &err);
                 error_queue.push(err);
             }
         }
